@@ -265,7 +265,8 @@ class Parameter(_SupportsArray):
 
         if self.non_negative:
             value = _log_value(value)
-            minimum = _log_value(minimum)
+            # the logarithm has no lower bound if the minimum is not positive
+            minimum = _log_value(minimum) if minimum > 0 else -np.inf
             maximum = _log_value(maximum)
 
         return value, minimum, maximum
